@@ -22,6 +22,10 @@ CHECKS = {
    technique="bounded symbolic execution of the real Go encoders/decoders and of the x/arch disassemblers (go/ssa -> SMT bit-vectors), one task per mnemonic with fully symbolic registers and immediate; z3 decides each assertion; counterexamples replayed natively",
    text="For every mnemonic of the RISC-V table (RV32 and RV64 modes, base and pseudo-instructions) and of the LoongArch64 table, riscv.EncodeRV32/RV64 resp. loong64.EncodeLA64 run symbolically with all four register operands (full int16 range) and the int32 immediate symbolic; on every path where the encoder accepts, golang.org/x/arch's riscv64asm/loong64asm decoder (executed symbolically as ordinary Go) must return the same operation, registers and immediate, and Wa's own DecodeEx must return the original instruction. One solver query per assertion and path covers all 2^96 operand combinations of that mnemonic. AArch64 (encoder is panic(TODO), nothing is accepted) and x86-64 (p9x86, table-driven Plan 9 assembler beyond the executor's reach) are outside the claim.",
    note="Trusted: x/arch decoders as the independent reference (copied under third_party/xarch), the GNU-syntax normalisations listed in the harness (AM* operand order, alsl sa2+1, ldptr/stptr byte offsets), the hand-written pseudo-instruction base table, go/ssa, the executor (validated per run by native replay of path models), z3 5.1.0. fmt.Errorf/Sprintf are opaque stubs. Known findings (F/D extension of the RISC-V table, LoongArch relaxed signed immediates, fence reserved fields, addu16i.d) are listed per mnemonic and label in known_findings.txt."),
+ "C24": dict(engine=E1, category="model_checking", design="DESIGN.md#C24",
+   technique="bounded symbolic execution of the real Go parser/evaluator/printer (go/ssa -> SMT bit-vectors) on symbolic constraint text and a symbolic tag truth table; z3 decides equivalence with a reference Boolean evaluator per path; counterexamples replayed natively",
+   text="buildtag.Parse (splitWaBuild, parseExpr, or/and/not/atom, lex), Expr.Eval and Expr.String run symbolically on '#wa:build ' followed by every string of up to 4 (quick) / 6 (thorough) bytes over the alphabet {space ( ) ! & | a b c}, with the tag assignment a symbolic 16-bit truth table: the parser accepts iff an independent precedence-climbing reference accepts, Eval equals the reference value for every assignment, and the printed form parses again to an equivalent expression. A second harness feeds up to 2 (quick) / 3 (thorough) completely arbitrary bytes (no panic; accept iff well-formed for ASCII), a third decides IsWaBuild's prefix rule. Right level: a small recursive-descent parser whose interesting inputs (precedence, parentheses, '!!', dangling operators) all occur within a few bytes.",
+   note="Trusted: the reference evaluator in the harness, go/ssa, the executor (validated per run by native replay of path models), z3 5.1.0. The tag truth table is indexed by a hash of the tag text (tags with equal hash share a value on both sides). Longer lines, the loader's file selection (isSkipedAstFile, directory walk) and non-ASCII tag letters beyond 3 bytes are outside the bound."),
  # ---CHECKS-END---
 }
 NA = {
